@@ -7,7 +7,9 @@ func (e *BinaryOpExpr) Check(ctx *CheckCtx) error {
 	if err := e.Right.Check(ctx); err != nil {
 		return err
 	}
-	e.tryRewriteExpr(ctx)
+	if err := e.tryRewriteExpr(ctx); err != nil {
+		return err
+	}
 	switch e.Op {
 	case And, Or, KWAnd, KWOr:
 		return e.checkWithAndOr(ctx)
@@ -24,10 +26,27 @@ func (e *BinaryOpExpr) Check(ctx *CheckCtx) error {
 	}
 }
 
-func (e *BinaryOpExpr) tryRewriteExpr(ctx *CheckCtx) {
+// definesItself reports whether the expression named by a field contains
+// the expression that is about to refer to that field, binding the name
+// there would make the field a part of its own definition
+func definesItself(named Expression, user Expression) bool {
+	found := false
+	named.Walk(func(x Expression) bool {
+		if x == user {
+			found = true
+		}
+		return !found
+	})
+	return found
+}
+
+func (e *BinaryOpExpr) tryRewriteExpr(ctx *CheckCtx) error {
 	switch lexp := e.Left.(type) {
 	case *NameExpr:
 		if nexpr, have := ctx.GetNamedExpr(lexp.Data); have {
+			if definesItself(nexpr, e) {
+				return NewSyntaxError(lexp.GetPos(), "Field %s is defined by itself", lexp.Data)
+			}
 			e.Left = &FieldReferenceExpr{
 				Name:      lexp,
 				FieldExpr: nexpr,
@@ -37,12 +56,16 @@ func (e *BinaryOpExpr) tryRewriteExpr(ctx *CheckCtx) {
 	switch rexp := e.Right.(type) {
 	case *NameExpr:
 		if nexpr, have := ctx.GetNamedExpr(rexp.Data); have {
+			if definesItself(nexpr, e) {
+				return NewSyntaxError(rexp.GetPos(), "Field %s is defined by itself", rexp.Data)
+			}
 			e.Right = &FieldReferenceExpr{
 				Name:      rexp,
 				FieldExpr: nexpr,
 			}
 		}
 	}
+	return nil
 }
 
 func (e *BinaryOpExpr) checkWithAndOr(ctx *CheckCtx) error {
@@ -256,6 +279,11 @@ func (e *FunctionCallExpr) Check(ctx *CheckCtx) error {
 	}
 	if len(e.Args) > 0 {
 		for i, a := range e.Args {
+			if name, ok := a.(*NameExpr); ok {
+				if nexpr, have := ctx.GetNamedExpr(name.Data); have && definesItself(nexpr, e) {
+					return NewSyntaxError(name.GetPos(), "Field %s is defined by itself", name.Data)
+				}
+			}
 			a = e.tryRewriteExpr(i, ctx)
 			if err := a.Check(ctx); err != nil {
 				return err
